@@ -308,6 +308,17 @@ def run_selfvalidation(ctx, pid):
             ctx.ob("refactoring:%s:%s" % (mode, qual), "pta/refactor.py", ERROR, "the check alarms (exit %d) on a behaviour-preserving `%s` of %s: %s" % (code, mode, qual, what))
     else:
         ctx.ob("refactorings", "pta/refactor.py", DISCHARGED, "%d behaviour-preserving variants (%s; one function at a time, every function in scope): the check stays silent on all" % (n_ref, ", ".join(sorted(refactor.MODES))), True)
+    # the corpus of behaviour-preserving patches (benign/): this check must stay silent on each
+    from . import seeds as _seeds
+    bres, bfails = _seeds.run_benign([pid], jobs=16, verbose=False)
+    ctx.cur_rule = "BENIGN"
+    for bid, _pid, status, msg in bres:
+        if status == "ok":
+            ctx.ob("benign:" + bid, "benign/%s/patch.diff" % bid, DISCHARGED, "silent on this behaviour-preserving patch", True)
+        elif status == "skipped":
+            ctx.ob("benign:" + bid, "benign/%s/patch.diff" % bid, INFO, msg)
+        else:
+            ctx.ob("benign:" + bid, "benign/%s/patch.diff" % bid, ERROR, "the check alarms on a behaviour-preserving patch: " + msg)
     # detection power, as information: single-token mutants of the property's anchor files under this check
     from . import mutants
     try:
